@@ -30,8 +30,12 @@ A_MUTANTS = [
     {"name": "getline_len_plus_one", "slice": "regionA.inc", "find": "buf_size - buf_pos)", "replace": "buf_size - buf_pos + 1)"},
     # statement order swapped: buf_pos computed from the NEW size -> getline(buf + buf_size - 1, 1) stores nothing but a terminator
     {"name": "buf_pos_after_bump", "slice": "regionA.inc", "regex": True,
-     "find": "buf_pos = buf_size - 1;\\s*buf_size = buf_size \\+ SOPLEX_LPF_MAX_LINE_LEN;",
-     "replace": "buf_size = buf_size + SOPLEX_LPF_MAX_LINE_LEN; buf_pos = buf_size - 1;"},
+     "find": "buf_pos = buf_size - 1;([\\s\\S]*?)buf_size = buf_size \\+ SOPLEX_LPF_MAX_LINE_LEN;",
+     "replace": "\\1buf_size = buf_size + SOPLEX_LPF_MAX_LINE_LEN; buf_pos = buf_size - 1;"},
+    # the text before the repair: the limit tested after the addition (signed overflow at buf_size == INT_MAX - LEN + 1, and the test can never fire)
+    {"name": "limit_tested_after_bump", "slice": "regionA.inc", "regex": True,
+     "find": "if\\(buf_size > INT_MAX - SOPLEX_LPF_MAX_LINE_LEN\\)([\\s\\S]*?)buf_size = buf_size \\+ SOPLEX_LPF_MAX_LINE_LEN;",
+     "replace": "buf_size = buf_size + SOPLEX_LPF_MAX_LINE_LEN; if(buf_size >= INT_MAX)\\1"},
     {"name": "buf_pos_past_size", "slice": "regionA.inc", "find": "buf_pos = buf_size - 1;", "replace": "buf_pos = buf_size + SOPLEX_LPF_MAX_LINE_LEN;"},
     {"name": "tmp_not_grown", "slice": "regionA.inc", "find": "spx_realloc(tmp, buf_size);", "replace": ""},
     {"name": "line_not_grown", "slice": "regionA.inc", "find": "spx_realloc(line, buf_size);", "replace": ""},
@@ -62,21 +66,21 @@ for tag, f in FILES.items():
                       function=FN[tag] + ": region `buf_pos = 0; while(!p_input.getline(..)) {grow buf} .. realloc tmp/line; lineno++; i = 0; pos = buf;` from the main-loop invariant",
                       defines={"INST_readgrow": ""}, harness="h_readgrow", enforce="w_readgrow",
                       slices=[region_a(f, "buf_pos = 0;")], unwind_loops=A_LOOPS_UNWOUND, unwind=3,
-                      min_obligations=60, tier="quick", mutants=A_MUTANTS))
+                      min_obligations=60, tier="quick", mutants=[m for m in A_MUTANTS if m["name"] != "limit_tested_after_bump"]))
     insts.append(dict(common, name="growstep_" + tag,
                       function=FN[tag] + ": the same region entered at `while(!p_input.getline(..))` from ANY state satisfying the loop-head invariant (inductive step of the growth loop)",
                       defines={"INST_growstep": ""}, harness="h_readgrow", enforce="w_readgrow",
                       slices=[region_a(f, "while\\(!p_input\\.getline\\(")], unwind_loops=A_LOOPS_UNWOUND, unwind=3,
                       min_obligations=60, tier="quick",
                       mutants=[m for m in A_MUTANTS if m["name"] in ("realloc_old_size", "getline_len_plus_one", "buf_pos_after_bump", "buf_pos_past_size", "buf_realloc_dropped", "tmp_not_grown")]))
-    # NOT registered in props/C13.json (fails on the unchanged tree, see the final report / proposed known finding): the same
-    # inductive step without the input assumption "no line of INT_MAX - LEN or more characters"
+    # the same inductive step without the input assumption "no line of INT_MAX - LEN or more characters" (failed before the
+    # repair of the line-length limit in /repo, see known_findings.json)
     insts.append(dict(common, name="growstep_" + tag + "_2g",
                       function=FN[tag] + ": growth loop, inductive step WITHOUT the assumption that lines are shorter than INT_MAX - SOPLEX_LPF_MAX_LINE_LEN characters",
                       defines={"INST_growstep": "", "NO_LINE_LIMIT": ""}, harness="h_readgrow", enforce="w_readgrow",
                       slices=[region_a(f, "while\\(!p_input\\.getline\\(")], unwind_loops=A_LOOPS_UNWOUND, unwind=3,
-                      min_obligations=60, tier="thorough",
-                      mutants=[m for m in A_MUTANTS if m["name"] in ("buf_realloc_dropped",)]))
+                      min_obligations=60, tier="quick",
+                      mutants=[m for m in A_MUTANTS if m["name"] in ("buf_realloc_dropped", "limit_tested_after_bump")]))
     insts.append(dict(common, name="squeeze_" + tag,
                       function=FN[tag] + ": steps 4a/4b (skip leading blanks, copy pos -> tmp without blanks)",
                       defines={"INST_squeeze": ""}, harness="h_squeeze", enforce="w_squeeze",
